@@ -5,6 +5,7 @@
 
 from __future__ import annotations
 
+from collections.abc import Sequence
 from http import HTTPStatus
 from typing import Any
 
@@ -196,9 +197,19 @@ _VGI_LOGO_HTML = """\
 class _RpcHttpError(Exception):
     """Internal exception for HTTP-layer errors with status codes."""
 
-    __slots__ = ("cause", "schema", "status_code")
+    __slots__ = ("cause", "logs", "schema", "status_code")
 
-    def __init__(self, cause: BaseException, *, status_code: HTTPStatus, schema: pa.Schema = _EMPTY_SCHEMA) -> None:
+    def __init__(
+        self,
+        cause: BaseException,
+        *,
+        status_code: HTTPStatus,
+        schema: pa.Schema = _EMPTY_SCHEMA,
+        logs: Sequence[pa.KeyValueMetadata] = (),
+    ) -> None:
         self.cause = cause
         self.status_code = status_code
         self.schema = schema
+        # Encoded metadata of client log messages the method emitted before it
+        # failed; written ahead of the error batch in the response.
+        self.logs = tuple(logs)
